@@ -10,7 +10,7 @@ from ..model import call_many
 from ..pool import guarded, run_cases
 
 THEOREMS = ["C02_defaults_alignment", "C02_function_roundtrip", "C02_default_stays_on_its_parameter", "C02_class_roundtrip",
-            "C02_alignment_example", "C02_class_text_roundtrip", "C02_class_docstring_canonical", "C02_class_text_example"]
+            "C02_alignment_example", "C02_class_text_roundtrip", "C02_class_docstring_canonical", "C02_class_text_example", "C02_function_text_parse_canonical", "C02_function_text_example"]
 FORMATS = [("class", {}), ("pydantic", {}), ("function", {"type_annotations": True, "kwonly": True}),
            ("function", {"type_annotations": True, "kwonly": False}), ("function", {"type_annotations": False, "kwonly": True}),
            ("function", {"type_annotations": False, "kwonly": False}), ("argparse", {})]
@@ -171,6 +171,69 @@ def cls_compare(cases):
     return n, bad
 
 
+def fn_impl(c, ta):
+    import cdd.function.emit
+    import cdd.function.parse
+    from collections import OrderedDict
+    from cdd.shared.ast_utils import NoneStr
+    params = OrderedDict()
+    for n, (typ, doc, dflt) in c["params"]:
+        e = {}
+        if doc is not None:
+            e["doc"] = doc
+        if typ is not None:
+            e["typ"] = typ
+        if dflt is not None:
+            e["default"] = ast.literal_eval(dflt)
+        params[n] = e
+    ir = {"name": "f", "doc": c["doc"], "params": params, "returns": None, "type": "static"}
+    with contextlib.redirect_stderr(io.StringIO()):
+        node = cdd.function.emit.function(copy.deepcopy(ir), function_name="f", function_type="static", type_annotations=ta, word_wrap=False,
+                                          emit_default_doc=False, emit_as_kwonlyargs=False)
+        src = ast.unparse(ast.fix_missing_locations(node))
+        fn = ast.parse(src).body[0]
+        docstring = ast.get_docstring(fn, clean=False)
+        nd = len(fn.args.args) - len(fn.args.defaults)
+        sig = [[a.arg, ast.unparse(a.annotation) if a.annotation else None, ast.unparse(fn.args.defaults[i - nd]) if i >= nd else None]
+               for i, a in enumerate(fn.args.args)]
+        back = cdd.function.parse.function(fn)
+    got = [back.get("doc"), [[k, [v.get("typ"), v.get("doc"), ("absent" if "default" not in v else ("NONESTR" if v["default"] == NoneStr else repr(v["default"])))]]
+                             for k, v in back["params"].items()]]
+    return src, docstring, sig, got
+
+
+def fn_compare(cases):
+    """Model/FuncFmt.v against cdd.function.emit / cdd.function.parse (positional parameters, static): the docstring the emitter writes
+    (and, inside the theorem's domain, that it is the canonical text of C02_function_text_parse_canonical), and what the parser returns for
+    the emitted function.  Names ending in kwargs become **kwargs in the signature: outside this model."""
+    from cdd.shared.ast_utils import NoneStr
+    bad, n = [], 0
+    cases = [c for c in cases if not any(nm.endswith("kwargs") for nm, _ in c["params"])]
+    for ta in (True, False):
+        rows = []
+        for c in cases:
+            st, v = guarded(lambda cc: fn_impl(cc, ta), c, 30)
+            if st == "ok":
+                rows.append((c, v))
+            elif not c["outside"]:
+                bad.append({"input": c, "type_annotations": ta, "impl": v})
+        args = [[ta, c["doc"], [[n_, [t, d, None]] for n_, (t, d, _x) in c["params"]]] for c, _ in rows]
+        md = call_many("function_docstring", args)
+        mc = call_many("function_canonical_text", args)
+        mp = call_many("parse_function", [[v[1] or "", [[a, ann, d if d is not None else "None"] for a, ann, d in v[2]]] for _, v in rows])
+        for (c, (src, docstring, sig, got)), d_, c_, p_ in zip(rows, md, mc, mp):
+            n += 1
+            if (docstring or "") != d_:
+                bad.append({"input": c, "type_annotations": ta, "what": "function docstring", "impl": docstring, "model": d_})
+                continue
+            if not c["outside"] and d_ != c_:
+                bad.append({"input": c, "type_annotations": ta, "what": "the emitted docstring is not the canonical text of the theorem", "emitted": d_, "canonical": c_})
+            want = [p_[0], [[k, [t, d, ("absent" if df is None else ("NONESTR" if df == NoneStr else repr(ast.literal_eval(df))))]] for k, (t, d, df) in p_[1]]]
+            if [got[0] or "", got[1]] != want:
+                bad.append({"input": c, "type_annotations": ta, "what": "parse of the emitted function", "source": src, "impl": got, "model": want})
+    return n, bad
+
+
 def worker(batch):
     out = {"n": 0, "hops": 0, "clean": 0, "items": [], "sig_bad": [], "sigs": 0, "classes": 0, "cls_bad": []}
     for kind, payload in batch:
@@ -188,6 +251,9 @@ def worker(batch):
     clss = [p for k, p in batch if k == "cls"]
     if clss:
         out["classes"], out["cls_bad"] = cls_compare(clss)
+        n_fn, fn_bad = fn_compare(clss)
+        out["classes"] += n_fn
+        out["cls_bad"] += fn_bad
     sigs = [p for k, p in batch if k == "sig"]
     if sigs:
         impl = [guarded(sig_impl, c, 20) for c in sigs]
@@ -255,7 +321,7 @@ def run(ctx):
             ctx.violation({"stage": "correspondence: Model/FuncSig.v parse_pairs vs cdd.function.parse.function", "detail": sig_bad[:3]},
                           no_input=True)
         elif cls_bad:
-            ctx.violation({"stage": "correspondence: Model/ClassFmt.v class_docstring / parse_class vs cdd.class_.emit / cdd.class_.parse",
+            ctx.violation({"stage": "correspondence: Model/ClassFmt.v / Model/FuncFmt.v vs cdd.class_ / cdd.pydantic / cdd.function emit and parse",
                            "detail": cls_bad[:3]}, no_input=True)
         elif not status["ok"]:
             ctx.violation({"stage": "proof", "theorem": status.get("failing_theorem"),
